@@ -44,7 +44,24 @@ def builtin_losses():
             "fourier": lambda **k: FourierLoss(**k), "fourier_ideal": lambda **k: FourierLoss(frequency_filter=ideal_low_pass_filter, f=0.5, **k),
             "msm": lambda **k: MethodOfMomentsLoss(**k), "msm_inv": lambda **k: MethodOfMomentsLoss(covariance_mat="inverse_variance", **k),
             "msm_std": lambda **k: MethodOfMomentsLoss(standardise_moments=True, **k),
+            # user-supplied pieces that hand back views / the very array they were given (an in-place step inside the loss then writes into the caller's data)
+            "msm_view_calc_std": lambda **k: MethodOfMomentsLoss(moment_calculator=_tail_view, standardise_moments=True, **k),
+            "msm_identity_calc": lambda **k: MethodOfMomentsLoss(moment_calculator=_same_array, covariance_mat="inverse_variance", standardise_moments=True, **k),
+            "minkowski_alias_filters": lambda **k: MinkowskiLoss(coordinate_filters=[_same_array] * _CUR["d"], **k),
+            "fourier_alias_filters": lambda **k: FourierLoss(coordinate_filters=[_same_array] * _CUR["d"], **k),
+            "msm_alias_filters": lambda **k: MethodOfMomentsLoss(coordinate_filters=[_same_array] * _CUR["d"], **k),
             "gsl": lambda **k: GslDivLoss(**k), "likelihood": lambda **k: LikelihoodLoss(**{kk: v for kk, v in k.items() if kk != "coordinate_weights"})}
+
+
+def _tail_view(ts):
+    return ts[-6:]
+
+
+def _same_array(ts):
+    return ts
+
+
+_CUR = {"d": 1}       # number of coordinates of the data the next loss object is built for (length of the alias-filter list)
 
 
 def gen_series(rng, e, n, d):
@@ -149,7 +166,11 @@ def run(chk: Check):
         e, n, d = rng.randint(1, 4), rng.choice([16, 24, 40]), rng.randint(1, 3)
         sim, real = gen_series(rng, e, n, d)
         sim2, real2 = gen_series(rng, e, n, d)
-        for name, mk in makers.items():
+        for name, mk0 in makers.items():
+            def mk(_mk0=mk0, _d=d, **k):
+                _CUR["d"] = len(k["coordinate_weights"]) if k.get("coordinate_weights") is not None else k.pop("_d", _d)
+                k.pop("_d", None)
+                return _mk0(**k)
             weights = rng.choice([None, np.array([rng.random() + 0.1 for _ in range(d)])])
             loss = mk(coordinate_weights=weights)
             case = {"case": {"kind": "builtin", "loss": name, "E": e, "N": n, "D": d}}
@@ -174,7 +195,7 @@ def run(chk: Check):
                 # on each coordinate alone; a zero weight removes the coordinate; permuting coordinates with weights changes nothing
                 if name != "likelihood" and v1 == v1 and abs(v1) != float("inf"):
                     ws = np.full(d, 1.0 / d) if weights is None else weights
-                    singles = [float(mk().compute_loss(sim[:, :, i:i + 1], real[:, i:i + 1])) for i in range(d)]
+                    singles = [float(mk(_d=1).compute_loss(sim[:, :, i:i + 1], real[:, i:i + 1])) for i in range(d)]
                     tot = float(sum(w * l for w, l in zip(ws, singles)))
                     tol = 1e-9 * max(1.0, sum(abs(w * l) for w, l in zip(ws, singles)))
                     if not abs(tot - v1) <= tol:
@@ -220,8 +241,9 @@ def run(chk: Check):
     # wrong-length lists on the built-ins
     for name, mk in makers.items():
         for which in ("coordinate_weights", "coordinate_filters"):
-            if name == "likelihood" and which == "coordinate_weights":
+            if (name == "likelihood" and which == "coordinate_weights") or "alias_filters" in name:
                 continue
+            _CUR["d"] = 2
             sim, real = gen_series(rng, 2, 16, 2)
             arg = np.ones(3) if which == "coordinate_weights" else [None, None, None]
             try:
